@@ -25,8 +25,8 @@ use std::sync::mpsc::{channel, Receiver, RecvTimeoutError};
 use std::sync::Mutex;
 use std::time::Duration;
 
-const CASE_TIMEOUT_MS: u64 = 4000;
-const WORKER_VMEM_KB: u64 = 1_500_000;
+const CASE_TIMEOUT_MS: u64 = 3000;
+const WORKER_VMEM_KB: u64 = 700_000;
 
 fn split(c: &[String]) -> Option<(String, String)> {
     let n: usize = c.get(1)?.parse().ok()?;
